@@ -166,6 +166,8 @@ def make_pool(seed):
     pool['a.p8']['data'] = reffmt.write_p8(pool['a.p8']['version'], codes['a.p8'], pool['a.p8']['mem'],
                                            label=pool['a.p8']['label'])
     pool['b.p8']['data'] = reffmt.write_p8(pool['b.p8']['version'], codes['b.p8'], pool['b.p8']['mem'], elide=True)
+    if seed[1] % 2:
+        pool['b.p8']['data'] = pool['b.p8']['data'].rstrip(b'\n')      # an editor stripped the final line ends
     for name in ('c.p8.png', 'd.p8.png'):
         # d.p8.png as an image tool may have re-saved it (interlaced / filtered / extra chunks)
         kw = reffmt.png_flavour(expand(b'flavour' + seed, 4))[0] if name == 'd.p8.png' else None
